@@ -232,6 +232,26 @@ def class_attributes():
     return out
 
 
+# module-level containers that have their own table
+GLOBALS_WATCHED_ELSEWHERE = {"PREDEFINED_COLORSPACE", "FONT_METRICS", "glyphname2unicode", "ENCODING", "IDENTITY_ENCODER"}
+
+
+def module_globals():
+    """GENERIC watch: every mutable container (dict / list / set, OrderedDict included) bound at module level in a pdfminer module
+    (one entry per defining object; the containers with a table of their own are left to that table)"""
+    out = {}
+    seen = set()
+    for mname, mod in _pdfminer_modules():
+        for name, v in list(vars(mod).items()):
+            if name.startswith("__") or name in GLOBALS_WATCHED_ELSEWHERE or not isinstance(v, (dict, list, set)):
+                continue
+            if id(v) in seen:
+                continue
+            seen.add(id(v))
+            out["%s.%s" % (mname, name)] = _h(v)
+    return out
+
+
 def function_defaults():
     """GENERIC watch: every mutable default argument (dict / list / set in __defaults__ / __kwdefaults__) of every function and
     method defined in a pdfminer module - a mutable default is one object for the whole process"""
@@ -304,6 +324,7 @@ def shared_tables():
     t.put("PSKeywordTable", "append", lambda: {k: hash((id(v), v.name)) for k, v in PSKeywordTable.dict.items()})
     t.put("class attributes (generic)", "append", class_attributes)
     t.put("function default arguments (generic)", "append", function_defaults)
+    t.put("module-level containers (generic)", "append", module_globals)
     t.put("interned constants", "append", interned_constants)     # (modules imported later add constants)
     t.put("module scalars", "immutable", lambda: {"settings.STRICT": hash(settings.STRICT), "PSBaseParser.BUFSIZ": hash(PSBaseParser.BUFSIZ),
                                                   "PDFPage.INHERITABLE_ATTRS": hash(frozenset(PDFPage.INHERITABLE_ATTRS)),
